@@ -762,6 +762,18 @@ class TextXVisitor(RRELVisitor):
     def visit_rule_name(self, node, children):
         rule_name = str(node)
 
+        if rule_name.startswith("__asgn"):
+            # Parser rules of assignments are named __asgn_... and are
+            # recognized by that prefix.
+            line, col = self.grammar_parser.pos_to_linecol(node.position)
+            raise TextXSemanticError(
+                f'Rule name "{rule_name}" is reserved (prefix "__asgn") '
+                f"at {(line, col)}.",
+                line,
+                col,
+                filename=self.metamodel.file_name,
+            )
+
         if self.debug:
             self.dprint(f"Creating class: {rule_name}")
 
